@@ -60,10 +60,6 @@ def _(c):
 # the balance index at the head lists only unspent outputs paying that very key (C03 coherence, a precondition here)
 COHERENT = ("every(PublicKey, lambda k: implies(k in B, all(B[k][1][j] in U and same(U[B[k][1][j]].public_key, k) "
             "for j in range(len(B[k][1])))))")
-# ... each once
-NODUP = ("every(PublicKey, lambda k: implies(k in B, all(implies(j1 != j2, B[k][1][j1] != B[k][1][j2]) "
-         "for j1 in range(len(B[k][1])) for j2 in range(len(B[k][1])))))")
-
 INPUTS_OK = ["all(%(L)s[j].output_reference in U for j in range(len(%(L)s)))",
              "all(U[%(L)s[j].output_reference].public_key.public_key in wallet.keypairs for j in range(len(%(L)s)))",
              "all(%(L)s[j].output_reference not in spent0 for j in range(len(%(L)s)))"]
@@ -109,3 +105,48 @@ def _(c):
                   "collected_value == sum(U[i.output_reference].value for i in inputs)")
     c.loop(0).index("a").invariant(*inv)
     c.loop(1).index("b").invariant(*inv)
+
+
+# ---- C15: keys are handed out once ---------------------------------------------------------------------------------------
+# Representation invariant of the wallet's key bookkeeping: the unused keys are distinct, none of them carries an
+# annotation (an annotation marks a key as handed out), all of them have a key pair.
+WINV = ["all(%(w)s.unused_public_keys[j] not in %(w)s.public_key_annotations for j in range(len(%(w)s.unused_public_keys)))",
+        "all(all(implies(j1 != j2, %(w)s.unused_public_keys[j1] != %(w)s.unused_public_keys[j2]) "
+        "for j2 in range(len(%(w)s.unused_public_keys))) for j1 in range(len(%(w)s.unused_public_keys)))",
+        "all(%(w)s.unused_public_keys[j] in %(w)s.keypairs for j in range(len(%(w)s.unused_public_keys)))"]
+
+
+@WL.contract("skepticoin.wallet.Wallet.get_annotated_public_key#C15", props=["C15"])
+def _(c):
+    c.params(self=wallet_shape())
+    c.let(u0="self.unused_public_keys", a0="self.public_key_annotations", n0="len(self.unused_public_keys)")
+    c.requires(*[t % {'w': 'self'} for t in WINV])
+    c.ensures(
+        # while unused keys remain: the key handed out was never handed out before, and will not be handed out again
+        "implies(n0 > 0, result == u0[n0 - 1] and result not in a0 and result in self.public_key_annotations)",
+        "implies(n0 > 0, len(self.unused_public_keys) == n0 - 1 and "
+        "all(self.unused_public_keys[j] == u0[j] for j in range(n0 - 1)))",
+        "implies(n0 > 0, all(self.unused_public_keys[j] != result for j in range(len(self.unused_public_keys))))",
+        "every(bytes, lambda k: implies(k != result, (k in self.public_key_annotations) == (k in a0)))",
+        "implies(n0 > 0, result in self.keypairs)",
+        # no unused key left: some key of the wallet is re-used (documented behaviour), nothing is recorded
+        "implies(n0 == 0, same(self.public_key_annotations, a0) and len(self.unused_public_keys) == 0)",
+        *[t % {'w': 'self'} for t in WINV])
+    c.modifies("self.unused_public_keys", "self.public_key_annotations")
+
+
+@WL.contract("skepticoin.wallet.Wallet.restore_annotated_public_key", props=["C15"])
+def _(c):
+    c.params(self=wallet_shape())
+    c.let(u0="self.unused_public_keys", a0="self.public_key_annotations", n0="len(self.unused_public_keys)")
+    c.requires("public_key in self.keypairs", *[t % {'w': 'self'} for t in WINV])
+    c.ensures("public_key not in self.public_key_annotations",
+              "len(self.unused_public_keys) == n0 + 1 and self.unused_public_keys[n0] == public_key",
+              "all(self.unused_public_keys[j] == u0[j] for j in range(n0))",
+              "every(bytes, lambda k: implies(k != public_key, (k in self.public_key_annotations) == (k in a0)))",
+              *[t % {'w': 'self'} for t in WINV])
+    # a key that is not handed out cannot be restored: KeyError, and NOTHING has changed (in particular the key was not
+    # appended to the unused keys a second time)
+    c.raises_only_if("public_key not in a0")
+    c.on_raise("same(self.unused_public_keys, u0)", "same(self.public_key_annotations, a0)")
+    c.modifies("self.unused_public_keys", "self.public_key_annotations")
